@@ -616,3 +616,152 @@ func TestC12Broker(t *testing.T) {
 		out.End()
 	}
 }
+
+// c12Burst: a few requests of one kind complete, then more requests of that
+// kind than the ack queue's initial capacity are outstanding at once (the queue
+// grows while its ring is wrapped), acknowledged in order: every completion
+// must fire, in order, after its own acknowledgement.
+func c12Burst(idx int, seed uint64) {
+	r := spec.NewRand(seed)
+	kind := []string{"pub1", "pub2", "sub", "unsub"}[idx%4]
+	pre := 1 + r.Intn(11)
+	burst := 17 + r.Intn(30)
+	params := map[string]interface{}{"burst": idx, "kind": kind, "completed_first": pre, "outstanding": burst}
+	s, err := openSession(nil, 0)
+	if err != nil {
+		out.Inconclusive("session: "+err.Error(), nil)
+		return
+	}
+	defer s.closeAll()
+	var mu sync.Mutex
+	fired := map[int][]int64{}
+	issue := func(i int) error {
+		cb := func(msg, ack message.Message, err error) error {
+			t := tick()
+			mu.Lock()
+			fired[i] = append(fired[i], t)
+			mu.Unlock()
+			return nil
+		}
+		switch kind {
+		case "pub1", "pub2":
+			m := message.NewPublishMessage()
+			m.SetTopic([]byte(fmt.Sprintf("c12b/%d", i)))
+			m.SetQoS(byte(kind[3] - '0'))
+			m.SetPayload(spec.MakePayload(uint64(i+1), 0, 30))
+			return s.cln.Publish(m, cb)
+		case "sub":
+			m := message.NewSubscribeMessage()
+			m.AddTopic([]byte(fmt.Sprintf("c12b/s/%d", i)), 1)
+			return s.cln.Subscribe(m, cb, func(*message.PublishMessage) error { return nil })
+		}
+		m := message.NewUnsubscribeMessage()
+		m.AddTopic([]byte(fmt.Sprintf("c12b/s/%d", i)))
+		return s.cln.Unsubscribe(m, cb)
+	}
+	wt, wq := wireType(kind)
+	wirePackets := func(n int) []*rc.Packet {
+		var ps []*rc.Packet
+		s.srv.WaitFor(func(l []rawclient.Event, closed bool) bool {
+			ps = ps[:0]
+			for _, e := range l {
+				if e.P.Type == wt && (wt != rc.PUBLISH || e.P.QoS == wq) {
+					ps = append(ps, e.P)
+				}
+			}
+			return len(ps) >= n
+		}, 10*time.Second)
+		return ps
+	}
+	ackOne := func(p *rc.Packet) int64 {
+		if kind == "pub2" {
+			s.srv.SendPacket(&rc.Packet{Type: rc.PUBREC, ID: p.ID})
+		}
+		t := tick()
+		a := &rc.Packet{Type: terminalOf(kind), ID: p.ID}
+		if a.Type == rc.SUBACK {
+			a.Codes = []byte{1}
+		}
+		s.srv.SendPacket(a)
+		return t
+	}
+	total := pre + burst
+	sentAt := make([]int64, total)
+	for i := 0; i < pre; i++ {
+		if err := issue(i); err != nil {
+			out.Violation("c12:request-error", err.Error(), params)
+			return
+		}
+	}
+	ps := wirePackets(pre)
+	if len(ps) < pre {
+		out.Violation("c12:wire", "requests missing on the wire", params)
+		return
+	}
+	for i := 0; i < pre; i++ {
+		sentAt[i] = ackOne(ps[i])
+	}
+	if !s.barrier(10 * time.Second) {
+		out.Violation("c12:barrier", "no PINGRESP", params)
+		return
+	}
+	for i := pre; i < total; i++ {
+		if err := issue(i); err != nil {
+			out.Violation("c12:request-error", err.Error(), params)
+			return
+		}
+	}
+	ps = wirePackets(total)
+	if len(ps) < total {
+		out.Violation("c12:wire", fmt.Sprintf("%d of %d requests on the wire", len(ps), total), params)
+		return
+	}
+	ids := map[uint16]bool{}
+	for _, p := range ps[pre:] {
+		if p.ID == 0 || ids[p.ID] {
+			out.Violation("c12:packet-id-duplicate", fmt.Sprintf("identifier %d zero or used twice among %d requests in flight", p.ID, burst), params)
+			return
+		}
+		ids[p.ID] = true
+	}
+	for i := pre; i < total; i++ {
+		sentAt[i] = ackOne(ps[i])
+		// after each in-order acknowledgement the request must complete (all earlier ones are acknowledged)
+		if !s.barrier(10 * time.Second) {
+			out.Violation("c12:barrier", "no PINGRESP", params)
+			return
+		}
+		mu.Lock()
+		n := len(fired[i])
+		mu.Unlock()
+		if n != 1 {
+			out.Violation("c12:completion-missing", fmt.Sprintf("%s request #%d of %d outstanding (after %d completed ones): acknowledged in order, completion fired %d times at the barrier", kind, i-pre, burst, pre, n), params)
+			return
+		}
+	}
+	mu.Lock()
+	defer mu.Unlock()
+	for i := 0; i < total; i++ {
+		if len(fired[i]) != 1 || fired[i][0] < sentAt[i] {
+			out.Violation("c12:completion-early", fmt.Sprintf("request %d: fired %v, ack sent at t%d", i, fired[i], sentAt[i]), params)
+			return
+		}
+	}
+	out.Count("c12.bursts", 1)
+	out.Count("c12.requests", int64(total))
+	out.Class(fmt.Sprintf("burst/%s/pre%d/n%d", kind, pre%8, burst/8))
+}
+
+func TestC12Burst(t *testing.T) {
+	n := pick(48, 1200)
+	for g := 0; g < n; g++ {
+		id := fmt.Sprintf("c12/burst/%d", g)
+		if !mine(g) || !out.Only(id) {
+			continue
+		}
+		seed := caseSeed("c12u", g)
+		out.Begin(id, seed, nil)
+		c12Burst(g, seed)
+		out.End()
+	}
+}
